@@ -147,14 +147,28 @@ func cmdRun(args []string) int {
 	candRace := map[int]bool{}
 	inconclusive := []string{}
 
-	cross := []symgo.SolverKind{symgo.SolverZ3}
-	if *tier == "thorough" {
-		cross = []symgo.SolverKind{symgo.SolverZ3, symgo.SolverCVC5}
+	quickSet := map[string]bool{}
+	for _, r := range spec.Quick {
+		quickSet[fmt.Sprint(r.Name, r.Params, r.Fuel, r.Race)] = true
 	}
 	var sampleW []Witness
 	for _, hr := range runs {
 		if *only != "" && !strings.Contains(hr.Name, *only) {
 			continue
+		}
+		// cross-check: every assertion query is re-decided by z3 4.8.12; in the thorough
+		// tier the wide-range arithmetic lemmas (where the solver's reasoning carries the
+		// claim over ranges no enumeration reaches) are also re-decided by cvc5
+		cross := []symgo.SolverKind{symgo.SolverZ3}
+		wideLemma := false
+		for _, n := range []string{"lit_arith", "pb_norm", "cp_clash", "cp_round"} {
+			wideLemma = wideLemma || strings.Contains(hr.Name, n)
+		}
+		if *tier == "thorough" && wideLemma {
+			cross = []symgo.SolverKind{symgo.SolverZ3, symgo.SolverCVC5}
+		}
+		if os.Getenv("VP_PASS") == "extras" && quickSet[fmt.Sprint(hr.Name, hr.Params, hr.Fuel, hr.Race)] && !wideLemma {
+			continue // development pass: only what the quick tier has not already run in this configuration
 		}
 		wall := 20 * time.Minute // per-harness wall budget: a run that exceeds it is reported as truncated (exit 2), never as held
 		if s := os.Getenv("VP_HARNESS_WALL_MIN"); s != "" {
